@@ -222,10 +222,33 @@ class Grammar(object):
                         if is_data(t2):
                             yield ('meth', c1, 'select', [c2]), ('Z', t2)
                             yield ('meth', c1, 'where', [c2]), ('Z', t1[1])
+                            # the same lambdas passed by keyword are as lazy as positional ones
+                            yield ('meth', c1, 'select', [], [['selector', c2]]), ('Z', t2)
+                            yield ('meth', c1, 'distinct', [], [['keySelector', c2]]), ('Z', t1[1])
+                        if t2 in ('I', 'S'):
+                            yield ('meth', c1, 'toDict', [c2]), ('D', ())
+                            yield ('meth', c1, 'toDict', [], [['keySelector', c2]]), ('D', ())
                 # C -> E: E is evaluated in (and typed by) the context C
                 if not isinstance(t1, str) and t1[0] == 'C':
                     for c2, t2 in self.gen(n2, t1[1], t1[2]):
                         yield ('arrow', c1, c2), t2
+
+
+        # ---- three children: key and value selector of toDict, each with `$` = the element
+        for n1 in range(1, n - 2):
+            for c1, t1 in first(self.gen(n1, G, P)):
+                if not is_coll(t1):
+                    continue
+                E = bindn(G, {'1': t1[1]})
+                for n2 in range(1, n - 1 - n1):
+                    n3 = n - 1 - n1 - n2
+                    for c2, t2 in self.gen(n2, E, P):
+                        if t2 not in ('I', 'S'):
+                            continue
+                        for c3, t3 in self.gen(n3, E, P):
+                            if is_data(t3):
+                                yield ('meth', c1, 'toDict', [c2], [['valueSelector', c3]]), ('D', ())
+                                yield ('meth', c1, 'toDict', [], [['valueSelector', c3], ['keySelector', c2]]), ('D', ())
 
 
 def grammar_cases(leafset, n, doc_name, shard):
@@ -247,8 +270,15 @@ VALSETS = {'full': VALS_FULL, 'small': VALS_SMALL, 'tiny': VALS_TINY}
 NEST_DOCS = ('int', 'null', 'dict')
 
 
+# unusual but legal variable names (language reference, "Variable access": "alphanumeric and underscore
+# characters only ... may start with digit, any number of underscores"): names of hidden parameters and
+# of python parameters of the library, a digit suffix, a leading underscore, camelCase, non-ASCII
+NAMES = ('context', 'engine', 'args', 'kwargs', 'receiver', 'name', 'self', 'func', 'x1', '_x', 'myVar', '\u00e9t\u00e9')
+
+
 def dump(scope):
     items = [('var', ''), ('var', '2'), ('var', 'x'), ('var', 'y')]
+    items += [('var', n) for n in NAMES if 'var:' + n in scope]
     # every defined function / delegate is invoked twice, the second time with fewer arguments: an invocation
     # must not see the arguments of an earlier one ($2 is null in the second call)
     if 'f' in scope:
@@ -278,15 +308,39 @@ def binders(vals):
         add('f', lambda b, v=v: ('arrow', ('call', 'def', [('lit', 'f'), ('list', [('var', ''), ('var', '2'), v])], []), b))
         add('', lambda b, v=v: ('dcall', ('call', 'lambda', [b], []), [v]))
         add('g', lambda b, v=v: ('arrow', ('call', 'let', [], [['g', ('call', 'lambda', [('list', [('var', ''), ('var', '2'), v])], [])]]), b))
+        # lambdas passed by (multi-word) keyword: `$` is the element in both, everything else the caller's scope
+        add('', lambda b, v=v: ('meth', ('list', [v, ('lit', 9)]), 'toDict', [],
+                                [['keySelector', ('bin', '=', ('var', ''), ('lit', 9))], ['valueSelector', b]]))
     # arguments are evaluated in the caller's frame: y reads the outer $x
     add('', lambda b: ('arrow', ('call', 'let', [], [['x', ('lit', 3)], ['y', ('var', 'x')]]), b))
     add('', lambda b: ('arrow', ('call', 'let', [], [['y', ('var', 'x')]]), b))
     return out
 
 
+def name_binders():
+    """Every way of binding a variable by name, for every unusual name, next to a few ordinary binders."""
+    out = []
+
+    def add(scope, fn):
+        out.append((frozenset(scope), fn))
+    four = ('lit', 4)
+    for n in NAMES:
+        sc = ['var:' + n]
+        add(sc, lambda b, n=n: ('arrow', ('call', 'let', [], [[n, four]]), b))
+        add(sc, lambda b, n=n: ('arrow', ('call', 'let', [('lit', 1)], [['x', ('var', n)], [n, ('var', 'x')]]), b))
+        add(sc, lambda b, n=n: ('arrow', ('meth', ('list', [four, ('lit', 8)]), 'unpack', [('lit', n), ('lit', 'y')]), b))
+        # keyword argument of a defined function / of a delegate: published as $name in the invocation
+        add(sc, lambda b, n=n: ('arrow', ('call', 'def', [('lit', 'h'), b], []), ('call', 'h', [('lit', 1)], [[n, four]])))
+        add(sc, lambda b, n=n: ('dcall', ('call', 'lambda', [b], []), [('lit', 1)], [[n, ('var', '')]]))
+    add([], lambda b: ('meth', ('list', [('var', ''), ('lit', 9)]), 'select', [b]))
+    add([], lambda b: ('arrow', ('call', 'let', [], [['x', ('var', '')]]), b))
+    add([], lambda b: ('arrow', ('call', 'with', [('var', 'x'), ('lit', 7)], []), b))
+    return out
+
+
 class Nests(object):
-    def __init__(self, vals):
-        self.B = binders(vals)
+    def __init__(self, valset):
+        self.B = name_binders() if valset == 'names' else binders(VALSETS[valset])
         self.memo = {}
 
     def all(self, d, scope):
@@ -317,16 +371,37 @@ class Nests(object):
 
 
 def nest_cases(valset, d, shard):
-    n = Nests(VALSETS[valset])
-    return n.produce(d, frozenset(), shard)
+    return Nests(valset).produce(d, frozenset(), shard)
 
 
 # ---------------------------------------------------------------------------------
 # execution
 # ---------------------------------------------------------------------------------
-def observe(text, doc):
+# A host that overrides variable access: names bound in no scope are answered from an external table,
+# everything else by the standard lookup (language reference, "Variable access").
+EXTERNAL = {'x': 'ext-x', 'y': 'ext-y', '2': 'ext-2'}
+_host = []
+
+
+def host_context():
+    if not _host:
+        from yaql.language import specs, yaqltypes
+        missing = object()
+
+        @specs.parameter('name', yaqltypes.StringConstant())
+        @specs.name('#get_context_data')
+        def get_context_data(name, context):
+            value = context.get_data(name, default=missing)
+            return EXTERNAL.get(name.lstrip('$')) if value is missing else value
+        ctx = yq.root(delegates=True).create_child_context()
+        ctx.register_function(get_context_data)
+        _host.append(ctx)
+    return _host[0]
+
+
+def observe(text, doc, host=False):
     st = yq.engine(allow_delegates=True)(text)
-    ctx = yq.root(delegates=True).create_child_context()
+    ctx = (host_context() if host else yq.root(delegates=True)).create_child_context()
     try:
         return ('v', st.evaluate(data=doc, context=ctx))
     except (RecursionError, MemoryError):
@@ -356,12 +431,19 @@ def features(ast, out=None):
         out.add(ast[1] if ast[1] in M.LIB else 'call-defined')
         for x in ast[2]:
             features(x, out)
-        for _, x in (ast[3] if len(ast) > 3 else []):
+        for n, x in (ast[3] if len(ast) > 3 else []):
+            if n in NAMES:
+                out.add('name=' + n)
             features(x, out)
     elif k == 'meth':
         out.add(ast[2] if ast[2] != 'unpack' else ('unpack(names)' if ast[3] else 'unpack()'))
         features(ast[1], out)
         for x in ast[3]:
+            if ast[2] == 'unpack' and x[1] in NAMES:
+                out.add('name=' + x[1])
+            features(x, out)
+        for n, x in (ast[4] if len(ast) > 4 else []):
+            out.add('%s(%s =>)' % (ast[2], n))
             features(x, out)
     elif k == 'map':
         out.add('map')
@@ -377,26 +459,31 @@ def features(ast, out=None):
         if k == 'dcall':
             for x in ast[2]:
                 features(x, out)
+            for n, x in (ast[3] if len(ast) > 3 else []):
+                if n in NAMES:
+                    out.add('name=' + n)
+                features(x, out)
         elif k != 'attr':
             features(ast[2], out)
     return out
 
 
-def failure_key(ast, notes):
+def failure_key(ast, notes, host):
     # a named input class where the model can tell it, else the set of constructs involved
     if 'unpack()/iterator' in notes:
         return 'unpack-positional-on-iterator', None
-    fs = sorted(features(ast))
+    fs = sorted(features(ast) | ({'host-override-of-variable-access'} if host else set()))
     return 'mismatch constructs=' + '+'.join(fs), fs
 
 
 def judge(res, part, doc_name, ast):
     doc = DOC[doc_name]
+    host = part.startswith('host')
     text = M.text(ast)
     res.case((part, doc_name, text))
-    exp = M.run(ast, doc)
+    exp = M.run(ast, doc, external=EXTERNAL if host else None)
     notes = set(M.NOTES)
-    obs = observe(text, doc)
+    obs = observe(text, doc, host)
     res.evaluations += 1
     res.transitions += 1
     if exp is None:
@@ -411,24 +498,24 @@ def judge(res, part, doc_name, ast):
             res.outcomes[part + ' error=error ' + obs[1]] += 1
         return
     res.outcomes[part + ' MISMATCH'] += 1
-    key, fs = failure_key(ast, notes)
+    key, fs = failure_key(ast, notes, host)
     res.fail(key, {'part': part, 'doc': doc_name, 'text': text, 'ast': ast, 'constructs': fs},
              'text %s with $ = %r: observed %r expected %r' % (text, doc, obs, exp))
 
 
-def job_grammar(leafset, n, doc_name, k, K):
+def job_grammar(leafset, n, doc_name, k, K, part='grammar'):
     res = Result()
     for ast in grammar_cases(leafset, n, doc_name, (k, K)):
-        judge(res, 'grammar', doc_name, ast)
+        judge(res, part, doc_name, ast)
         if res.states % 5000 == 1:
             res.sample({'text': M.text(ast), 'doc': doc_name, 'expected': repr(M.run(ast, DOC[doc_name]))}, limit=2)
     return res
 
 
-def job_nests(valset, d, doc_name, k, K):
+def job_nests(valset, d, doc_name, k, K, part='nest'):
     res = Result()
     for ast in nest_cases(valset, d, (k, K)):
-        judge(res, 'nest', doc_name, ast)
+        judge(res, part, doc_name, ast)
         if res.states % 5000 == 1:
             res.sample({'text': M.text(ast), 'doc': doc_name, 'expected': repr(M.run(ast, DOC[doc_name]))}, limit=2)
     return res
@@ -437,16 +524,17 @@ def job_nests(valset, d, doc_name, k, K):
 def jobs(tier, seed):
     out = []
 
-    def grammar(leafset, n, docs, K):
+    def grammar(leafset, n, docs, K, part='grammar'):
         for name, _ in docs:
             for k in range(K):
-                out.append(('grammar-%s-n%d-%s-%d' % (leafset, n, name, k), 'job_grammar', (leafset, n, name, k, K)))
+                out.append(('%s-%s-n%d-%s-%d' % (part, leafset, n, name, k), 'job_grammar', (leafset, n, name, k, K, part)))
 
-    def nests(valset, d, docs, K):
+    def nests(valset, d, docs, K, part='nest'):
         for name in docs:
             for k in range(K):
-                out.append(('nests-%s-d%d-%s-%d' % (valset, d, name, k), 'job_nests', (valset, d, name, k, K)))
+                out.append(('%s-%s-d%d-%s-%d' % (part, valset, d, name, k), 'job_nests', (valset, d, name, k, K, part)))
 
+    one = DOCS[:1]
     if tier == 'quick':
         for n in (1, 2, 3, 4):
             grammar('full', n, DOCS, 1)
@@ -454,6 +542,13 @@ def jobs(tier, seed):
         nests('full', 1, NEST_DOCS, 1)
         nests('full', 2, NEST_DOCS, 2)
         nests('small', 3, NEST_DOCS[:1], 24)
+        nests('names', 1, NEST_DOCS[:1], 1)
+        nests('names', 2, NEST_DOCS[:1], 4)
+        # the same under a host that overrides variable access
+        for n in (1, 2, 3):
+            grammar('full', n, one, 1, 'host-grammar')
+        nests('full', 1, NEST_DOCS[:1], 1, 'host-nest')
+        nests('full', 2, NEST_DOCS[:1], 2, 'host-nest')
     else:
         for n in (1, 2, 3, 4):
             grammar('full', n, DOCS, 1)
@@ -463,6 +558,13 @@ def jobs(tier, seed):
         nests('full', 2, NEST_DOCS, 2)
         nests('full', 3, NEST_DOCS, 24)
         nests('tiny', 4, NEST_DOCS[:1], 48)
+        nests('names', 1, NEST_DOCS, 1)
+        nests('names', 2, NEST_DOCS, 4)
+        for n in (1, 2, 3, 4):
+            grammar('full', n, DOCS, 1, 'host-grammar')
+        nests('full', 1, NEST_DOCS, 1, 'host-nest')
+        nests('full', 2, NEST_DOCS, 2, 'host-nest')
+        nests('small', 3, NEST_DOCS[:1], 16, 'host-nest')
     return out
 
 
@@ -488,8 +590,9 @@ def finish(total, tier):
 
 def replay(case):
     ast, doc = case['ast'], DOC[case['doc']]
+    host = case['part'].startswith('host')
     text = M.text(ast)
-    exp = M.run(ast, doc)
-    obs = observe(text, doc)
+    exp = M.run(ast, doc, external=EXTERNAL if host else None)
+    obs = observe(text, doc, host)
     return {'text': text, 'observed': repr(obs), 'expected': repr(exp),
             'ok': exp is None or agree(obs, exp)}
